@@ -12,7 +12,7 @@ Oracle (independent of the model): a structural fingerprint of every object reac
      objects a bake returned."""
 import json, random, copy as _copy
 from fractions import Fraction as F
-import common, dsl, gen, recipes
+import common, dsl, gen, recipes, histcheck
 from common import qstr
 
 RULE = ('non-trivial = a call (successful or raising) made while at least one older object was reachable and fingerprinted; '
@@ -1003,9 +1003,14 @@ def run(chk, gate, status):
     results = [run_impl(p) for p in directed()] + [(g.im, g.obs, g.fails) for g in gens]
     terms = [to_coq(p) for p in progs]
     model, errors = common.coq_eval('C04', IMPORTS, terms, chunk=6)
-    nfail = ndis = 0
+    nfail = ndis = ties = 0
+    ndirected = len(directed())
     stats, keys = {}, set()
     samples = []
+
+    def model_decisions(ps, i):
+        ms, _ = common.coq_eval('C04tie', IMPORTS, [to_coq(p) for p in ps])
+        return [None if x is None else decode(x, len(p['ops']))[0][i]['ok'] for x, p in zip(ms, ps)]
     for g in gens:
         for k, v in g.stats.items():
             stats[k] = stats.get(k, 0) + v
@@ -1026,6 +1031,10 @@ def run(chk, gate, status):
             d = compare(obs, im.graph(), mobs, mgraph, tol=10.0, rtol=1e-6 if any(o['op'] in ('solfrom', 'solutionc') for o in prog['ops']) else 2e-8)
         except Exception as e:  # noqa
             d = [(0, f"cannot decode the model's output: {type(e).__name__} {e}")]
+        if d and d[0][1].startswith('decision:') and pi >= ndirected and histcheck.float_tie(
+                prog, d[0][0], lambda p, i: run_impl(p)[1][i]['ok'], model_decisions):
+            ties += 1
+            d = []
         if d:
             ndis += 1
             if not fails and ndis <= 3:
@@ -1046,7 +1055,7 @@ def run(chk, gate, status):
                         "recipe layer (uses / steps / bake / later operations on results): oracle on the implementation only; the heap model covers uses"]
     return {'evaluations': sum(len(p['ops']) for p in progs) + rcalls, 'programs': len(progs), 'recipe_calls_watched': rcalls,
             'recipe_call_outcomes': {f"{a}:{b}": c for (a, b), c in sorted(rkinds.items())},
-            'distinct_nontrivial': len(keys), 'rule': RULE, 'disagreements_checked': ndis, 'oracle_failures': nfail,
+            'distinct_nontrivial': len(keys), 'rule': RULE, 'disagreements_checked': ndis, 'oracle_failures': nfail, 'float_ties_not_judged': ties,
             'generator_distribution': stats, 'samples': samples,
             'history_lengths': {'min': min(len(p['ops']) for p in progs), 'max': max(len(p['ops']) for p in progs)}}
 
